@@ -84,11 +84,12 @@ Section NI.
 End NI.
 
 (** (iii) the premise of (ii) for the current source, regenerated on every run (Tie 2): the
-    package-level variables of the library are the three indirections of cli.go and the two sentinel
-    errors, and no function of the library assigns any of them. *)
+    package-level variables of the library that could hold mutable state are the three indirections of
+    cli.go (variables initialised with an immutable constant-like value, such as the two sentinel errors,
+    cannot), and no function of the library assigns any package-level variable, directly or through an
+    index, a field or a pointer. *)
 Theorem C20_shared_store_is_read_only :
-  g_package_vars = [("exiter", "."); ("stdOut", "."); ("stdErr", "."); ("errHelpRequested", ".");
-                    ("errVersionRequested", ".")]%string
+  g_package_vars = [("exiter", "."); ("stdOut", "."); ("stdErr", ".")]%string
   /\ g_package_var_writes = [].
 Proof. exact tie_package_state. Qed.
 
